@@ -91,7 +91,9 @@ PROPS = {
 # functions of shared units count for a property only if tagged with it (//@ props:), lemmas via LEMMA_PROPS
 LEMMA_PROPS = {
     'symfold': {'*': ['C18']},
-    'heaps': {'lemma_reconfiguring_keeps_every_queued_node_reachable': ['C06', 'C19'], 'lemma_insert_keeps_every_queued_node_reachable': ['C06', 'C19'], '*': ['C19']},
+    'heaps': {'lemma_reconfiguring_keeps_every_queued_node_reachable': ['C06', 'C19'], 'lemma_insert_keeps_every_queued_node_reachable': ['C06', 'C19'],
+              'lemma_sum_len_update': ['C06'], 'lemma_sum_len_positive_has_nonempty': ['C06'], 'lemma_counted_heap_satisfies_the_scheduler_invariant': ['C06'],
+              'lemma_remove_min_keeps_the_count_and_the_lower_bound': ['C06'], 'lemma_insert_keeps_the_count': ['C06'], '*': ['C19']},
     'heightwalk': {'*': ['C19']},   # no lemmas
     'expert': {'*': ['C14']},
     'handlers': {'*': ['C09']},
